@@ -1109,7 +1109,8 @@ class Date(_BaseDateTime, dtypes.Date):
 
         def _to_datetime(col: PandasObject) -> PandasObject:
             col = to_datetime_fn(col, **self.to_datetime_kwargs)
-            return col.astype(pandas_dtype).dt.date
+            # an all-null column of dates is inferred as datetime64 again
+            return col.astype(pandas_dtype).dt.date.astype(self.type)
 
         if isinstance(data_container, pd.DataFrame):
             # pd.to_datetime transforms a df input into a series.
